@@ -1240,6 +1240,9 @@ def run(ctx, report):
     shared_table_rule(R16, [ctx.mod('ia32_sem'), ctx.mod('emul_helper')])
     R11 = report.rule('C04.D11', 'xchg / xadd on two parts of one register (al, ah) write both parts, and on one register named twice write it once with the value the processor writes last (lifted assignments evaluated)', floor=10)
     same_register_parts_rule(ctx, R11, L, sem)
+    R20 = report.rule('C04.D20', 'cbw / cwde / cwd / cdq: the lifted assignments, evaluated under their operand size on boundary accumulators, extend the sign of al / ax / eax '
+                      '(cwd takes bit 15 of ax, not bit 31 of eax) and leave every other bit', floor=4)
+    sign_extension_rule(ctx, R20, L, sem)
     R19 = report.rule('C04.D19', 'an assignment to a part of a register (ah, ax, al) keeps the other bits of the register and puts every bit of the value at its place, whatever the '
                       'kind of the value (ExprAff.__init__ evaluated on slice destinations x value kinds, compared bit by bit; shared with C11.D5): lahf, cbw, movzx r16, setcc ah', floor=30)
     from .c11 import aff_slice_rule
@@ -1299,6 +1302,47 @@ def run(ctx, report):
             elif len(R4.samples) < 3 and n_shift:
                 R4.samples.append('%s %s: %d shift nodes, count under & 0x1F' % (inst.name, inst.form, n_shift))
 
+
+
+def sign_extension_rule(ctx, R, L, sem):
+    """cbw / cwde / cwd / cdq lifted under both operand sizes and evaluated on boundary accumulators: under 16 bits cbw gives ax = sext(al) and cwd gives dx = sign of ax
+    (bit 15, not bit 31) leaving the upper halves; under 32 bits cwde gives eax = sext(ax) and cdq gives edx = sign of eax."""
+    I = L.I
+    mf = L.mnemo_func
+    vals = [0, 1, 0x7F, 0x80, 0xFF, 0x7FFF, 0x8000, 0xFFFF, 0x80000000, 0x7FFF8000, 0xFFFF7FFF, 0x12348765, 0x8765FF80, 0x00FF0080, 0xFFFFFFFF, 0x7FFFFFFF]
+    for name, opmode in (('cbw', 'u16'), ('cwde', 'u32'), ('cwd', 'u16'), ('cdq', 'u32')):
+        f = mf.get(name)
+        inst = 'sign-extension %s (%s)' % (name, opmode)
+        if f is None:
+            raise AnalysisError('ia32_sem.mnemo_func has no %s' % name)
+        bad = None
+        for a in vals:
+            for d in (0x11112222, 0xFFFF0000):
+                st = {'eax': a, 'edx': d}
+                for fl in ('zf', 'nf', 'pf', 'of', 'cf', 'af', 'df'):
+                    st[fl] = 0
+                try:
+                    outs = lifted_effect(I, f, [], st, opmode)
+                except (Refuse, DoubleWrite) as e:
+                    raise AnalysisError('%s: the lifted assignments are outside the evaluable subset: %s' % (name, e))
+                if name == 'cbw':
+                    al = a & 0xFF
+                    want = {'eax': (a & 0xFFFF0000) | ((al | 0xFF00) if al & 0x80 else al), 'edx': d}
+                elif name == 'cwde':
+                    ax = a & 0xFFFF
+                    want = {'eax': (ax | 0xFFFF0000) if ax & 0x8000 else ax, 'edx': d}
+                elif name == 'cwd':
+                    want = {'eax': a, 'edx': (d & 0xFFFF0000) | (0xFFFF if a & 0x8000 else 0)}
+                else:
+                    want = {'eax': a, 'edx': 0xFFFFFFFF if a & 0x80000000 else 0}
+                for got in outs:
+                    for r_ in ('eax', 'edx'):
+                        if (got[r_] & 0xFFFFFFFF) != want[r_] and bad is None:
+                            bad = '%s with eax = %#x, edx = %#x leaves %s = %#x; the processor leaves %#x' % (name, a, d, r_, got[r_] & 0xFFFFFFFF, want[r_])
+        if bad:
+            R.violation(inst, 'sign-extension:%s' % name, bad, where(sem, f.node if hasattr(f, 'node') else sem.tree), witness='66 99 with eax = 0x7fff8000' if name == 'cwd' else None)
+        else:
+            R.ok(inst, sample='%s evaluated on %d accumulators x 2 values of edx: the registers are those of the processor' % (name, len(vals)), nontrivial=True)
 
 MUTANTS = [
     ('aff-slice-compose-spliced-without-offset', 'miasmx/expression/expression.py', "            all_a = sorted([(src, dst.start, dst.stop)] + rest, key=lambda x:x[1])",
